@@ -25,16 +25,16 @@ CLAIM = {
     "text": "Kernel theorems in Coq over the recover skeleton with arbitrary bodies (so they cover every recoverable "
             "panic of the un-modelled compiler passes): cl.NewPackage without Recorder always returns, a panic becomes "
             "exactly one additional error (err != nil), nested recovers (loadImport, loadSymbol, compileStmt) never "
-            "raise and let compilation continue; with a Recorder the panic escapes iff gogen.NewPackage raised or "
-            "rec.Complete raises; x/build BuildFile turns panics into errors. The skeleton is tied to the source by a "
+            "raise and let compilation continue; with a Recorder the only panic that still escapes is one raised by "
+            "rec.Complete itself (a panic of gogen.NewPackage is returned as an error); x/build BuildFile turns panics into errors. The skeleton is tied to the source by a "
             "regenerated audit of the entry points (obligations by computation) and by a differential run of the "
             "extracted model against cl.NewPackage with panics injected through the user callbacks. The remainder "
             "(fatal errors, termination, error positions) is explored by mutation fuzzing in child processes.",
     "note": "Modelled, not verified: the defer/recover structure of NewPackage, loadSymbol, loadImport, compileStmt, "
             "BuildFile/BuildFSDir/BuildDir; recoverErr is assumed total. Not covered by the theorem: stack overflow, "
-            "out of memory, runtime fatal errors, non-termination (explored only). Known findings: NewPackage with "
-            "Config.Recorder lets a nil-pointer panic out when gogen.NewPackage panics; x/build ParseFSDir/ParseDir/"
-            "ParseFile dereference a nil package when the directory holds no XGo package.",
+            "out of memory, runtime fatal errors, non-termination (explored only). With a Recorder only a panic raised by "
+            "rec.Complete itself (it runs after the recover) can leave NewPackage. The two former findings (nil package with a "
+            "Recorder; x/build ParseFSDir without package) are repaired in /repo and kept as regression inputs.",
 }
 
 
@@ -48,7 +48,7 @@ def scenario(rng):
     en = 0 if rng.below(10) == 0 else 1
     rec = rng.below(2)
     gogen = "o"
-    if rec == 0 and rng.below(15) == 0:      # rec=1 + gogen panic = known finding recorder-nil-pkg (witness only)
+    if rng.below(12) == 0:                   # gogen.NewPackage panics (with and without Recorder; repaired 162cdf8)
         gogen = "p" + mk()
     cls = "p" + mk() if rng.below(10) == 0 else "o"
     imps = []
@@ -93,7 +93,7 @@ FIXED_SCENARIOS = [
     "en=1 rec=0 gogen=o cls=o imports=- syms=- tail=o reccomp=o",
     "en=0 rec=0 gogen=o cls=p3 imports=- syms=- tail=o reccomp=o",
 ]
-WITNESS_SCENARIO = "en=1 rec=1 gogen=p1 cls=o imports=- syms=- tail=o reccomp=o"      # known finding recorder-nil-pkg
+WITNESS_SCENARIO = "en=1 rec=1 gogen=p1 cls=o imports=- syms=- tail=o reccomp=o"      # was finding recorder-nil-pkg (repaired 162cdf8): regression input
 
 
 def det_cases():
